@@ -35,6 +35,7 @@ class Skip(BaseException):
 
 
 _MARKS: List[str] = []
+_CASE: List[Any] = []      # what the harness built from its symbolic inputs
 
 
 def assume(cond) -> None:
@@ -44,6 +45,12 @@ def assume(cond) -> None:
 
 def mark(tag: str) -> None:
     _MARKS.append(tag)
+
+
+def case(obj) -> None:
+    """Record the structure a harness built (tree, triples, text, argv...)
+    so that evidence samples show actual cases, not only program indices."""
+    _CASE.append(obj)
 
 
 def bound_int(x, lo: int, hi: int) -> None:
@@ -140,6 +147,7 @@ def _safe_repr(x) -> str:
 def run_native(fn: Callable, kwargs: Dict[str, Any]) -> Dict[str, Any]:
     """Run *fn* on concrete *kwargs*; classify the outcome."""
     del _MARKS[:]
+    del _CASE[:]
     try:
         fn(**kwargs)
     except Skip:
@@ -277,6 +285,7 @@ def explore(
 
     def runner(bound):
         del _MARKS[:]
+        del _CASE[:]
         try:
             return fn(**fixed, **bound.arguments)
         except Skip:
@@ -342,6 +351,7 @@ def explore(
                         stop = True
                 else:
                     marks = list(_MARKS)
+                    cases = list(_CASE)
                     res['ok'] += 1
                     for m in marks:
                         res['marks'][m] = res['marks'].get(m, 0) + 1
@@ -371,8 +381,12 @@ def explore(
                             res['divergences'].append(
                                 {'kwargs': repr(kw), 'kind': 'native-skip'})
                         if need_sample:
+                            with ResumedTracing():
+                                shown = [_safe_repr(deep_realize(c))[:400]
+                                         for c in cases[:3]]
                             res['samples'].append(
-                                {'kwargs': repr(kw), 'marks': marks})
+                                {'kwargs': repr(kw), 'marks': marks,
+                                 'case': shown})
                     status = VerificationStatus.CONFIRMED
             except IgnoreAttempt:
                 res['paths'] += 1
